@@ -399,12 +399,20 @@ func (b *Bucket) MoveBucket(key []byte, dstBucket *Bucket) (err error) {
 	}
 
 	// remove the sub-bucket from the source bucket
+	movedBucket := b.buckets[string(newKey)]
 	delete(b.buckets, string(newKey))
 	c.node().del(newKey)
 
 	// add te sub-bucket to the destination bucket
 	newValue := cloneBytes(v)
 	curDst.node().put(newKey, newKey, newValue, 0, common.BucketLeafFlag)
+
+	// If the sub-bucket was opened in this transaction, keep it cached under its
+	// new parent so that its uncommitted changes are spilled (and its header is
+	// rewritten) there instead of being dropped with the stale on-page header.
+	if movedBucket != nil {
+		dstBucket.buckets[string(newKey)] = movedBucket
+	}
 
 	return nil
 }
